@@ -226,9 +226,7 @@ def _make_X(y, seed):
 
 def execute(prop, scen):
     peers.reset()
-    from sktime.forecasting.base import ForecastingHorizon
-    ForecastingHorizon.to_relative.cache_clear()
-    ForecastingHorizon.to_absolute.cache_clear()
+    C.reset_caches()
     if prop == "C07":
         return execute_c07(scen)
     return execute_c08(scen)
